@@ -88,6 +88,21 @@ func init() {
 				pub1("T0", "K1", 0), pull("S0", 10), tick("lease+"),
 			},
 		}
-		return []*hist.Scenario{a, b, c, e}
+		// a seek revives an old message with FRESH retention; by the time the next
+		// same-key message is published the revived one is older than the retention
+		// (counted from its publish) but still outstanding
+		f := &hist.Scenario{
+			ID: "C05/revived-predecessor-older-than-retention", Prop: "C05", Depth: d(tier, 6, 7), Drain: true,
+			Cfg: model.Cfg{Topics: []string{"T0"}, Subs: []model.SubCfg{
+				{Name: "S0", Topic: "T0", Ordered: true, Retention: 40 * time.Minute},
+			}},
+			Prelude: []model.Op{pub1("T0", "K1", 0), pull("S0", 10), ack("S0", "all"), tick("+30m"), seekT("S0", "before-all"), tick("+30m")},
+			Alphabet: []model.Op{
+				pub1("T0", "K1", 0), pub1("T0", "K2", 0),
+				pull("S0", 1), pull("S0", 10), ack("S0", "oldest"), ack("S0", "newest"),
+				tick("lease+"),
+			},
+		}
+		return []*hist.Scenario{a, b, c, e, f}
 	}
 }
